@@ -1295,3 +1295,58 @@ mod tests {
         voronoi.consistency_check();
     }
 }
+
+#[cfg(feature = "verif-hooks")]
+impl Voronoi {
+    /// Assemble a `Voronoi` from given cells and faces and run the real `finalize`.
+    pub fn vh_assemble(
+        voronoi_cells: Vec<VoronoiCell>,
+        faces: Vec<VoronoiFace>,
+        anchor: DVec3,
+        width: DVec3,
+        dimensionality: Dimensionality,
+        periodic: bool,
+    ) -> Self {
+        Voronoi {
+            anchor,
+            width,
+            voronoi_cells,
+            faces,
+            cell_face_connections: vec![],
+            dimensionality,
+            periodic,
+        }
+        .finalize()
+    }
+}
+
+#[cfg(feature = "verif-hooks")]
+impl<M: ConvexCellMarker + 'static> VoronoiIntegrator<M> {
+    /// Assemble an integrator directly from (possibly absent) convex cells.
+    pub fn vh_from_cells(
+        cells: Vec<Option<ConvexCell<M>>>,
+        cell_is_active: Vec<bool>,
+        anchor: DVec3,
+        width: DVec3,
+        dimensionality: Dimensionality,
+        periodic: bool,
+    ) -> Self {
+        Self {
+            cells,
+            cell_is_active,
+            anchor,
+            width,
+            dimensionality,
+            periodic,
+        }
+    }
+    pub fn vh_anchor(&self) -> DVec3 {
+        self.anchor
+    }
+    pub fn vh_width(&self) -> DVec3 {
+        self.width
+    }
+    pub fn vh_cell_is_active(&self) -> &[bool] {
+        &self.cell_is_active
+    }
+}
